@@ -4,7 +4,9 @@ import (
 	"fmt"
 	"testing"
 
+	"github.com/RoaringBitmap/roaring"
 	segment "github.com/blugelabs/bluge_segment_api"
+	ice "github.com/blugelabs/ice/v2"
 	"pgregory.net/rapid"
 )
 
@@ -35,6 +37,20 @@ func c16Prop(st *CaseStats, fam int) func(t *rapid.T) {
 		}
 		if fam == FamHuge {
 			depth = rapid.SampledFrom([]int{0, 1, 1, 1}).Draw(t, "depthHuge")
+		}
+		failedBefore := false
+		if fam == FamSmall && rapid.IntRange(0, 2).Draw(t, "failedMergeFirst") == 0 {
+			// an unrelated merge fails part way (the destination fails at a drawn offset) before the case is made:
+			// whatever the merger recycles between merges must come back clean
+			ob := GenBatch(t, sc, 10)
+			if oseg, err := Build(ob, sc.Norm, 1025); err == nil && len(ob) > 0 {
+				k := rapid.IntRange(0, 600).Draw(t, "failedMergeAt")
+				_ = safely("failed merge", func() error {
+					_, e := ice.Merge([]segment.Segment{oseg, oseg}, []*roaring.Bitmap{nil, nil}, rapid.SampledFrom([]int{0, 16}).Draw(t, "failedMergeBuf")).WriteTo(&failAfter{k: k}, nil)
+					return e
+				})
+				failedBefore = true
+			}
 		}
 		c, err := GenCase(t, ctx, sc, cfg, depth, "c")
 		if err != nil {
@@ -123,6 +139,9 @@ func c16Prop(st *CaseStats, fam int) func(t *rapid.T) {
 		}
 		if termless {
 			labels = append(labels, "termless-field")
+		}
+		if failedBefore {
+			labels = append(labels, "after-a-failed-merge")
 		}
 		nt := (c.Merged && c.Labels["multi-input"] && c.Labels["drop+survivor"]) || termless
 		st.Record(desc, nt, labels...)
